@@ -438,7 +438,15 @@ func TestCheck(t *testing.T) {
 	r.Set("sequences_generated", int64(len(seqs)))
 	_ = nShallow
 
-	// Part F first: it is small, and the internal deadline must never cut it (see followup_test.go)
+	// Part R first (readers racing a block operation, see reader_test.go), then part F: both are small, and the
+	// internal deadline must never cut them (see followup_test.go)
+	readerRaces(r)
+	if os.Getenv("VERIF_C05_ONLY_R") != "" { // development aid: part R alone
+		r.Set("distinct_nontrivial", int64(2))
+		r.Set("rule", "part R only (development run)")
+		r.Incomplete("development run: part R only")
+		r.Finish()
+	}
 	followUps(r, storeNames)
 	if os.Getenv("VERIF_C05_ONLY_F") != "" { // development aid: part F alone
 		r.Set("distinct_nontrivial", int64(2))
@@ -684,7 +692,7 @@ func TestCheck(t *testing.T) {
 	r.Set("rule", fmt.Sprintf("all operation sequences <=%d over {store x%d, revert, setL1Head, persistFilterSnapshot, restart-graceful, restart-ungraceful, query} plus all sequences <=%d over {store x2, revert, persistFilterSnapshot, restart-ungraceful, query}, "+
 		"from base images {empty, 3-block chain}, both state backends; for every applicable sequence: crash after EVERY committed write k (fresh node on the frozen image) and error injected into EVERY committed write k (and, for the short sequences, into every staged batch write); "+
 		"oracle = reference chain (before or after the in-flight op): all block/tx/receipt/state-update/lookup accessors, tries recomputed == head commitment, head storage, event queries == naive scan, next block stores; "+
-		"after an injected failure: no partial writes, the SAME node object still answers like the pre-op chain, the retry succeeds and the run ends like the no-fault twin; part F (follow-ups other than the retry after a failed operation on the node that stays up): see followup_rule", depth, len(storeNames), deepDepth))
+		"after an injected failure: no partial writes, the SAME node object still answers like the pre-op chain, the retry succeeds and the run ends like the no-fault twin; part F (follow-ups other than the retry after a failed operation on the node that stays up): see followup_rule; part R (a reader run to completion at every KV-store call of a store / revert, incl. at the 8192-block window boundary): see race_rule", depth, len(storeNames), deepDepth))
 	r.Sample(map[string]any{"sequence": "store:A.s0=1 ; persistFilterSnapshot ; revert ; store:empty ; restart-ungraceful", "then": "crash after each commit / fail each commit"})
 	r.Sample(map[string]any{"sequences": len(seqs), "applicable_x_bases_x_backends": applicableSeqs})
 	r.Assume = append(r.Assume, "a committed write (batch) is atomic at the KV seam (backend contract, see C15); crashes are modelled between commits", "crash points inside an operation are enumerated on the memory backend under the faultdb proxy; on pebblev2 (crashable MemFS) a power loss is taken after every operation with only synced data surviving; the crash atomicity of one synced Pebble batch is trusted")
